@@ -12,6 +12,7 @@ func cutField
   ensures safe_shrinks: len(field) + len(tail) <= len(data)
 
 func (*Record).UnmarshalText
+  requires rec != nil
   loop 0
     invariant safe_count: 0 <= n && n + len(f) + len(t) <= len(hosts)
     decreases len(f) + len(t)
